@@ -6,6 +6,7 @@
    does not change the earlier tokens at all. *)
 From Coq Require Import Sorting.Sorted.
 From Ucg Require Import base.Bytes base.Bytes_Lemmas lex.Lex_Types lex.Vocab lex.Lex lex.Lex_Lemmas.
+From UcgGen Require Import LexVocab.
 Local Open Scope list_scope.
 
 Definition shift_tok (dl doff : N) (t : token) : token :=
@@ -313,12 +314,15 @@ Proof.
     { destruct (ends_nl_suffix p (b lit) r1 Hp E) as [->|]; [|assumption].
       rewrite app_nil_r in E. subst p. apply no_nl_ends in Hp. congruence. }
     destruct (ws_run r1) as [[k rest]|] eqn:Ew.
-    + destruct (ws_run_ext _ x _ _ Ew) as [->|[-> ->]].
-      * left. reflexivity.
-      * right. split; [reflexivity|]. now rewrite app_assoc.
+    + destruct kw_lookahead_only.
+      * (* only looked at: the keyword token ends inside p whatever follows *)
+        destruct (ws_run_ext _ x _ _ Ew) as [->|[_ ->]]; left; reflexivity.
+      * destruct (ws_run_ext _ x _ _ Ew) as [->|[-> ->]].
+        -- left. reflexivity.
+        -- right. split; [reflexivity|]. now rewrite app_assoc.
     + rewrite (ws_run_none_ext _ x (ends_nl_nonempty _ Hr1) Ew).
       destruct (comment_run r1) as [[[bd k] rest]|] eqn:Ec.
-      * rewrite (comment_run_ext _ x _ _ _ Hr1 Ec). left. reflexivity.
+      * rewrite (comment_run_ext _ x _ _ _ Hr1 Ec). destruct kw_lookahead_only; left; reflexivity.
       * now rewrite (comment_run_none_ext _ x Hr1 Ec).
   - (* digittok *)
     destruct p as [|c p]; [congruence|]. cbn [app]. destruct (is_digit c) eqn:Ec; [|reflexivity].
